@@ -112,10 +112,11 @@ impl SlidingLogState {
 
         // No capacity - calculate when the oldest request will expire
         if let Some(&oldest) = self.request_log.front() {
+            // An expiry that `Instant` cannot represent never comes: the slot is not freed
             let time_until_slot = oldest
                 .checked_add(self.window_duration)
                 .map(|expiry| expiry.saturating_duration_since(now))
-                .unwrap_or(Duration::ZERO);
+                .unwrap_or(Duration::MAX);
 
             if time_until_slot > self.timeout_duration {
                 Err(self.timeout_duration)
